@@ -51,6 +51,15 @@ F2 = "C09-F2"
 F3 = "C09-F3"
 
 
+
+def iscore(o, value, where=""):
+    """The reported score as int; a non-integer score (e.g. None) is a violation, not a harness error."""
+    if value is None or isinstance(value, (bool, str)) or not isinstance(value, (int, np.integer)):
+        o.fail("reported_score_is_integer", f"{where}: reported score is {value!r}, not an integer")
+        return None
+    return int(value)
+
+
 def trace_of(ali):
     return [tuple(int(v) for v in row) for row in np.asarray(ali.trace).tolist()]
 
@@ -336,6 +345,26 @@ def st_table_limit(tier):
 # --------------------------------------------------------------------------
 # banded
 # --------------------------------------------------------------------------
+
+def used_matrix(case, s1, s2):
+    """A second, equal SubstitutionMatrix object that has already served other calls
+    (score_matrix(), transpose(), an unrelated alignment): the result of an alignment must not
+    depend on what the matrix object was used for before."""
+    import biotite.sequence.align as align
+
+    used = build(case)[2]
+    used.score_matrix()
+    used.transpose()
+    if len(s1) > 0 and len(s2) > 0:
+        align.align_optimal(s1, s2, used, gap_penalty=-1, max_number=1)
+    return used
+
+
+def same_result(res_a, res_b):
+    key = lambda res: [(ali.score, trace_of(ali)) for ali in res]
+    return key(res_a) == key(res_b)
+
+
 def run_banded(case):
     import biotite.sequence.align as align
 
@@ -353,6 +382,15 @@ def run_banded(case):
     try:
         res = align.align_banded(
             s1, s2, matrix, tuple(case["band"]), gap_penalty=gap, local=local, max_number=case["max_number"]
+        )
+        res_used = align.align_banded(
+            s1, s2, used_matrix(case, s1, s2), tuple(case["band"]), gap_penalty=gap, local=local,
+            max_number=case["max_number"],
+        )
+        o.check(
+            same_result(res, res_used),
+            "result_independent_of_matrix_history",
+            lambda: f"fresh matrix: {[(a.score, trace_of(a)) for a in res]}, used matrix: {[(a.score, trace_of(a)) for a in res_used]}",
         )
     except ValueError as e:
         # a band without any cell (i, j) cannot hold an alignment
@@ -382,7 +420,9 @@ def run_banded(case):
     scores = set()
     for k, ali in enumerate(res):
         trace = trace_of(ali)
-        score = int(ali.score)
+        score = iscore(o, ali.score, f"alignment {k}")
+        if score is None:
+            return o
         scores.add(score)
         problems = R.validate_trace(trace, n, m, True)
         if problems:
@@ -479,6 +519,11 @@ def run_seeded(case):
     res = align.align_local_gapped(
         s1, s2, matrix, seed, case["threshold"], gap_penalty=gap, max_number=case["max_number"], direction=direction
     )
+    res_used = align.align_local_gapped(
+        s1, s2, used_matrix(case, s1, s2), seed, case["threshold"], gap_penalty=gap, max_number=case["max_number"],
+        direction=direction,
+    )
+    o.check(same_result(res, res_used), "result_independent_of_matrix_history", "fresh vs. already used matrix object")
     only = align.align_local_gapped(
         s1, s2, matrix, seed, case["threshold"], gap_penalty=gap, max_number=case["max_number"], direction=direction,
         score_only=True,
@@ -497,11 +542,14 @@ def run_seeded(case):
     scores = set()
     for k, ali in enumerate(res):
         trace = trace_of(ali)
-        scores.add(int(ali.score))
+        rep = iscore(o, ali.score, f"alignment {k}")
+        if rep is None:
+            return o
+        scores.add(rep)
         if not check_seed_trace(o, trace, seed, direction, n, m, k):
             continue
         mine = R.score_trace(trace, c1, c2, mat, go, ge, True)
-        o.check_eq(mine, int(ali.score), "recomputed_score_equals_reported", f"alignment {k} trace={trace}")
+        o.check_eq(mine, rep, "recomputed_score_equals_reported", f"alignment {k} trace={trace}")
         key = tuple(trace)
         o.check(key not in seen, "non_empty_results_distinct", lambda: f"alignment {k} repeated: {trace}")
         seen.add(key)
@@ -559,7 +607,9 @@ def run_ungapped(case):
         o.label("drop_exactly_at_threshold")
 
     trace = trace_of(ali)
-    score = int(ali.score)
+    score = iscore(o, ali.score, "ungapped result")
+    if score is None:
+        return o
     if check_seed_trace(o, trace, seed, direction, n, m, 0):
         o.check(all(-1 not in col for col in trace), "no_gaps", lambda: f"gap in ungapped result {trace}")
         o.check(
@@ -627,9 +677,12 @@ def run_table_limit(case):
         r = align.align_local_gapped(
             s1, s2, matrix, seed, case["threshold"], max_table_size=limit, score_only=case["score_only"], **kw
         )
-        return int(r) if case["score_only"] else (int(r[0].score), trace_of(r[0]))
+        return int(r) if case["score_only"] else (r[0].score, trace_of(r[0]))
 
-    expect = int(free.score) if case["score_only"] else (int(free.score), tr)
+    free_score = iscore(o, free.score, "unlimited call")
+    if free_score is None:
+        return o
+    expect = free_score if case["score_only"] else (free_score, tr)
     if grew and limit < need:
         o.label("must_raise")
         o.expect_raises(MemoryError, limited, "memory_error_when_table_exceeds_limit", f"limit={limit} need>={need}")
@@ -648,7 +701,7 @@ def run_table_limit(case):
             o.check_eq(got, expect, "same_result_when_table_fits", f"limit={limit}")
     # the failed call must leave the function usable
     again = align.align_local_gapped(s1, s2, matrix, seed, case["threshold"], **kw)[0]
-    o.check_eq((int(again.score), trace_of(again)), (int(free.score), tr), "usable_after_memory_error", "second unlimited call")
+    o.check_eq((again.score, trace_of(again)), (free_score, tr), "usable_after_memory_error", "second unlimited call")
     return o
 
 
